@@ -75,6 +75,7 @@ type Engine struct {
 	Replace  map[string]string // full name of a replaced function -> harness function (engine only)
 	Replaced map[string]int
 	netipZ   map[int]*value
+	initStart int
 	ShardIdx, ShardN int
 	shardUsed bool
 
@@ -185,6 +186,7 @@ func (e *Engine) ensureInit(p *ssa.Package) {
 		e.ctx = &Ctx{OnDecl: e.Solver.Declare}
 	}
 	e.initMode = true
+	e.initStart = e.Steps
 	func() {
 		defer func() {
 			if r := recover(); r != nil {
@@ -651,15 +653,85 @@ func (e *Engine) mapDelete(m *mapV, k value) {
 type mapIter struct {
 	keys, vals []value
 	i          int
+	m          *mapV
+}
+
+// concreteEq decides equality of two map keys without branching; ok=false if it cannot be decided.
+func concreteEq(a, b value) (eq bool, ok bool) {
+	switch x := a.(type) {
+	case string:
+		y, isS := b.(string)
+		return isS && x == y, isS
+	case *Term:
+		y, isT := b.(*Term)
+		if !isT || !x.K || !y.K {
+			return false, false
+		}
+		if x.Sort == SBool {
+			return x.B == y.B, true
+		}
+		return x.C.Cmp(y.C) == 0, true
+	case *value:
+		y, isP := b.(*value)
+		return isP && x == y, isP
+	case iface:
+		y, isI := b.(iface)
+		if !isI {
+			return false, false
+		}
+		if x.t == nil || y.t == nil {
+			return x.t == nil && y.t == nil, true
+		}
+		if !types.Identical(x.t, y.t) {
+			return false, true
+		}
+		return concreteEq(x.v, y.v)
+	case structure:
+		y, isS := b.(structure)
+		if !isS || len(x) != len(y) {
+			return false, false
+		}
+		for i := range x {
+			e, k := concreteEq(x[i], y[i])
+			if !k {
+				return false, false
+			}
+			if !e {
+				return false, true
+			}
+		}
+		return true, true
+	}
+	return false, false
 }
 
 func (it *mapIter) next() tuple {
-	if it.i >= len(it.keys) {
-		return tuple{False, nil, nil}
+	for it.i < len(it.keys) {
+		k, v := it.keys[it.i], it.vals[it.i]
+		it.i++
+		// Go does not produce entries that were deleted during the iteration; the current value of a
+		// still-present key is produced
+		if it.m != nil {
+			present, decided := false, true
+			for j, mk := range it.m.keys {
+				eq, ok := concreteEq(mk, k)
+				if !ok {
+					decided = false
+					break
+				}
+				if eq {
+					present = true
+					v = it.m.vals[j]
+					break
+				}
+			}
+			if decided && !present {
+				continue
+			}
+		}
+		return tuple{True, copyVal(k), copyVal(v)}
 	}
-	k, v := it.keys[it.i], it.vals[it.i]
-	it.i++
-	return tuple{True, copyVal(k), copyVal(v)}
+	return tuple{False, nil, nil}
 }
 
 type stringIter struct {
@@ -687,7 +759,7 @@ func (e *Engine) rangeIter(x value, t types.Type) iter {
 		}
 		// Go's map iteration order is unspecified; entries deleted during iteration are not
 		// produced. We iterate a snapshot in insertion order and skip keys no longer present.
-		return &mapIter{keys: append([]value{}, x.keys...), vals: append([]value{}, x.vals...)}
+		return &mapIter{keys: append([]value{}, x.keys...), vals: append([]value{}, x.vals...), m: x}
 	case string:
 		return &stringIter{s: x}
 	}
@@ -841,11 +913,51 @@ func (e *Engine) callSSA(caller *frame, fn *ssa.Function, args []value, env []va
 	if e.initMode && fn.Name() == "init" && caller != nil {
 		return nil // do not chase other packages' init from an init
 	}
+	if e.initMode && caller != nil {
+		// tolerant initialisation: a callee that cannot be executed yields the zero value instead of
+		// aborting the whole initialiser (globals it would have produced read as zero / poison)
+		return e.callInitTolerant(caller, fn, args, env)
+	}
 	e.depth++
 	if e.depth > 400 {
 		unsup("call depth")
 	}
 	defer func() { e.depth-- }()
+	fr := &frame{e: e, caller: caller, fn: fn, env: map[ssa.Value]value{}, block: fn.Blocks[0]}
+	for i, p := range fn.Params {
+		fr.env[p] = args[i]
+	}
+	for i, fv := range fn.FreeVars {
+		fr.env[fv] = env[i]
+	}
+	e.run(fr)
+	return fr.result
+}
+
+func (e *Engine) callInitTolerant(caller *frame, fn *ssa.Function, args []value, env []value) (res value) {
+	e.depth++
+	defer func() { e.depth-- }()
+	if e.depth > 400 || e.Steps-e.initStart > 3000000 {
+		return retZero(fn)
+	}
+	defer func() {
+		if r := recover(); r != nil {
+			switch r.(type) {
+			case unsupported, targetPanic, pathAbort:
+				res = retZero(fn)
+			default:
+				if _, isRT := r.(error); isRT { // host runtime error inside the interpreter (type assertion etc.)
+					res = retZero(fn)
+					return
+				}
+				if _, isStr := r.(string); isStr {
+					res = retZero(fn)
+					return
+				}
+				panic(r)
+			}
+		}
+	}()
 	fr := &frame{e: e, caller: caller, fn: fn, env: map[ssa.Value]value{}, block: fn.Blocks[0]}
 	for i, p := range fn.Params {
 		fr.env[p] = args[i]
